@@ -160,6 +160,18 @@ theorem runStream_flushed (ms : List Str) : ∀ (s : Stream), s.flushable = true
     refine ⟨h2.1, ?_, h2.2.2.1, h2.2.2.2⟩
     rw [h2.2.1, h1.2.1, c]; simp
 
+/-- the worker loop as the code has it: a message – whatever its text, the EMPTY text included – is
+written and the loop goes on; only the sentinel ends it; the confirmation token is not written -/
+theorem workerIter_gen (k : Sink) :
+    (∀ c, workerIter Gen.workerOps k (.msg c) = some (k.write c)) ∧
+    workerIter Gen.workerOps k .sentinel = none ∧ workerIter Gen.workerOps k .confirm = some k := by
+  simp [Gen.workerOps, workerIter]
+
+theorem workerRun_all (q : List Call) : ∀ k : Sink, workerRun Gen.workerOps k q = (q.foldl Sink.write k, []) := by
+  induction q with
+  | nil => intro k; rfl
+  | cons c r ih => intro k; simp [workerRun, (workerIter_gen k).1 c, ih]
+
 /-- what `Handler.stop` must leave behind -/
 def Handler.final (h : Handler) : Handler :=
   { h with stopped := true, sentinel := h.enqueue, joined := h.enqueue, queue := [],
@@ -181,7 +193,7 @@ theorem handler_stop (h : Handler) (hl : Live h) : h.stop = h.final := by
   · simp at f; subst f
     cases own <;> simp [Handler.stop, Handler.final, Gen.handlerStopOps, runStopOp]
   · simp at b; subst b
-    simp [Handler.stop, Handler.final, Gen.handlerStopOps, runStopOp]
+    simp [Handler.stop, Handler.final, Gen.handlerStopOps, runStopOp, workerRun_all, (workerIter_gen _).2.1]
 
 theorem removeOne_live (h : Handler) (hl : Live h) : removeOne h = (h.final, true) := by
   simp [removeOne, Gen.removeOps, runRemoveOp, handler_stop h hl]
